@@ -66,6 +66,7 @@ def bounds(tier):
         "matrix_families": FAMS + RECT_FAMS,
         "matrix_variants_per_family": 1 if tier == "quick" else "2 for the 2-letter setup, 1 otherwise",
         "max_number_3_letter_setup": list(_max_numbers(tier, 3, 3)),
+        "max_number_rectangular_setup": list(_max_numbers(tier, 2, 3)),
         "gap_penalties": [I.gap_json(g) for g in I.GAPS],
         "refused_gap_penalties": [I.gap_json(g) for g in BAD_GAPS],
         "modes": list(MODES),
@@ -75,8 +76,10 @@ def bounds(tier):
 
 
 def _max_numbers(tier, k1, k2):
-    # the thorough 3-letter space (14 641 pairs) runs without max_number=2
-    return (1, 1000) if (tier == "thorough" and (k1, k2) == (3, 3)) else MAX_NUMBERS
+    # max_number=2 only in the 2-letter setup (and the thorough rectangular one): time budget
+    if (k1, k2) == (2, 2) or (tier == "thorough" and (k1, k2) == (2, 3)):
+        return MAX_NUMBERS
+    return (1, 1000)
 
 
 def _variants(tier, seed):
